@@ -162,7 +162,7 @@ def add_common_options(parser):
     group.add_argument('jugfile', action='store', nargs='?',
                        help="Python script to use. (Default: %(default)s)" % {"default": default_options.jugfile})
     group.add_argument('--aggressive-unload',
-                       action='store_true',
+                       action='store_const', const=True,
                        dest='aggressive_unload',
                        help='''\
 Aggressively unload data from memory. This causes many more reloading of
@@ -183,15 +183,15 @@ You can use Python format syntax, the following variables are available:
                        dest='verbose',
                        help='Verbosity level [use "info" to see details of processing]')
     group.add_argument('--short',
-                       action='store_true',
+                       action='store_const', const=True,
                        dest='short',
                        help='Short output')
     group.add_argument('--pdb',
-                       action='store_true',
+                       action='store_const', const=True,
                        dest='pdb',
                        help='Drop to a PDB (debug) console on error')
     group.add_argument('--debug',
-                       action='store_true',
+                       action='store_const', const=True,
                        dest='debug',
                        help='''\
 Debug mode. This adds a little more error checking, thus it can be slower.
